@@ -183,7 +183,7 @@ func c10(c *engine.Ctx) {
 	c.Check(okKey, "C10.R2", "returned-key-is-hashed-key", r.Pos(), "the key in the result must be the key whose NonceHash1 was verified")
 
 	// R3 RSA key origin
-	okRSA := false
+	okRSA, viaSelector := false, false
 	for _, call := range engine.CallsTo(fn, false, "crypto.RSAPad") {
 		if !engine.Dominates(call, r) {
 			continue
@@ -191,6 +191,14 @@ func c10(c *engine.Ctx) {
 		d := engine.Describe(call.Common().Args[1])
 		if strings.HasPrefix(d, "p:c.keys[") && strings.HasSuffix(d, ".RSA") {
 			okRSA = true
+		}
+		// or the RSA field of what a selector helper of the package returned
+		// for (c.keys, the server's fingerprint list)
+		if sel := c10SelectorCall(call.Common().Args[1]); sel != nil {
+			ki, fi, okSel := c10Selector(sel.Common().StaticCallee())
+			if okSel && engine.Describe(sel.Common().Args[ki]) == "p:c.keys" && strings.Contains(engine.Describe(sel.Common().Args[fi]), "ServerPublicKeyFingerprints") {
+				okRSA, viaSelector = true, true
+			}
 		}
 	}
 	c.Check(okRSA, "C10.R3", "rsa-key-from-trusted-set", r.Pos(), "the inner data must be encrypted to a key taken from the client's trusted key list")
@@ -218,7 +226,7 @@ func c10(c *engine.Ctx) {
 			okFp = true
 		}
 	})
-	c.Check(okFp, "C10.R3", "fingerprint-match", r.Pos(), "a key may be selected only when its fingerprint equals one the server listed")
+	c.Check(okFp || viaSelector, "C10.R3", "fingerprint-match", r.Pos(), "a key may be selected only when its fingerprint equals one the server listed")
 
 	// R4 decrypt + DH checks with origins
 	var inner ssa.Value
@@ -444,4 +452,72 @@ func reachableAvoiding(fn *ssa.Function, target *ssa.BasicBlock, cut map[[2]*ssa
 		}
 	}
 	return false
+}
+
+// c10SelectorCall: v is the RSA field of the PublicKey a static same-package
+// call returned (possibly through a local variable).
+func c10SelectorCall(v ssa.Value) *ssa.Call {
+	var found *ssa.Call
+	engine.WalkBack(v, func(x ssa.Value) bool {
+		if call, ok := x.(*ssa.Call); ok {
+			if h := call.Common().StaticCallee(); h != nil && found == nil && strings.HasSuffix(h.Signature.Results().String(), "exchange.PublicKey)") && h.Pkg != nil && strings.HasSuffix(h.Pkg.Pkg.Path(), "/exchange") {
+				found = call
+			}
+			return false
+		}
+		return true
+	})
+	return found
+}
+
+// c10Selector: h(keys, fingerprints) returns either the zero PublicKey or an
+// element of its keys parameter on a path where that element's Fingerprint()
+// equals an element of its fingerprints parameter. Returns the two parameter
+// indexes.
+func c10Selector(h *ssa.Function) (keysIdx, fpsIdx int, ok bool) {
+	keysIdx, fpsIdx = -1, -1
+	if h == nil || len(h.Blocks) == 0 {
+		return
+	}
+	for i, p := range h.Params {
+		t := p.Type().String()
+		switch {
+		case strings.HasSuffix(t, "[]github.com/gotd/td/exchange.PublicKey") || strings.HasSuffix(t, "[]exchange.PublicKey"):
+			keysIdx = i
+		case t == "[]int64":
+			fpsIdx = i
+		}
+	}
+	if keysIdx < 0 || fpsIdx < 0 {
+		return
+	}
+	kp, fp := "p:"+engine.ParamName(h.Params[keysIdx])+"[", "p:"+engine.ParamName(h.Params[fpsIdx])+"["
+	picked := 0
+	for _, r := range engine.Returns(h) {
+		v := r.Results[0]
+		d := engine.Describe(v)
+		if isZeroStruct(v) || strings.HasSuffix(d, "PublicKey{}") {
+			continue
+		}
+		if !strings.HasPrefix(d, kp) {
+			return keysIdx, fpsIdx, false
+		}
+		match := engine.GuardedBy(r, func(k engine.Cmp) bool {
+			if k.Op != token.EQL {
+				return false
+			}
+			for _, q := range []engine.Cmp{k, k.Swap()} {
+				f := isCallTo(q.Y, "(exchange.PublicKey).Fingerprint")
+				if f != nil && strings.HasPrefix(engine.Describe(q.X), fp) && strings.HasPrefix(engine.Describe(f.Common().Args[0]), kp) && engine.Describe(f.Common().Args[0]) == d {
+					return true
+				}
+			}
+			return false
+		})
+		if !match {
+			return keysIdx, fpsIdx, false
+		}
+		picked++
+	}
+	return keysIdx, fpsIdx, picked > 0
 }
